@@ -20,6 +20,7 @@ import time
 import traceback
 
 from .chooser import Chooser, derive_seed
+from .world import ActorStuck
 
 VERIF = os.path.dirname(os.path.dirname(os.path.abspath(__file__)))
 PY = sys.executable
@@ -86,6 +87,7 @@ def load_known(prop):
 
 # ------------------------------------------------------------------ workers
 _worker_mod = None
+_poisoned = False
 
 
 def _worker_init(modname, repo):
@@ -110,8 +112,20 @@ def run_one(mod, cfgname, cfg, seed=None, tape=None):
     gc.disable()
     gc.collect()
     t0 = time.time()
+    global _poisoned
     try:
+        if _poisoned:
+            raise RuntimeError("worker skipped: an earlier run left a spinning thread behind")
         out = mod.scenario(ch, dict(cfg))
+    except ActorStuck as e:
+        _poisoned = True            # the stuck thread keeps a core busy: this worker runs nothing more
+        if e.where is not None:
+            # a busy loop inside the code under test: whoever waits for that thread waits for ever
+            out = {"violations": [{"sig": f"{mod.PROPERTY}:livelock:{e.where}",
+                                   "msg": f"thread {e.actor} spins inside the code under test without ever reaching a scheduling point: {e.stack}"}],
+                   "stats": {"probe_livelock_detected": 1}, "sample": {"livelock": e.stack}, "tail": []}
+        else:
+            out = {"harness_error": f"ActorStuck: {e}", "violations": []}
     except Exception as e:   # harness failure, not a property violation
         out = {"harness_error": f"{type(e).__name__}: {e}\n{traceback.format_exc()}", "violations": []}
     out["wall"] = time.time() - t0
@@ -129,6 +143,10 @@ def _chunk(modname, cfgname, cfg, base_seed, indices, want_samples):
         "violations": [], "harness_errors": [], "samples": [], "wall": 0.0, "cfgname": cfgname,
     }
     for i in indices:
+        if _poisoned:
+            agg.setdefault("skipped", 0)
+            agg["skipped"] += 1
+            continue
         seed = derive_seed(base_seed, mod.PROPERTY + ":" + cfgname, i)
         out = run_one(mod, cfgname, cfg, seed=seed)
         agg["runs"] += 1
@@ -401,6 +419,8 @@ def search(mod, args):
             cfg = cfgs[v["cfgname"]]
             budget = 40 if args.tier == "quick" else 180
             try:
+                if ":livelock:" in sig:
+                    raise RuntimeError("not shrunk: every evaluation of a livelock costs the full step limit")
                 sh = pool.submit(_shrink, mod.__name__, v["cfgname"], cfg, v["tape"], sig, budget, 3000).result(
                     timeout=budget + 120)
             except Exception as e:
